@@ -76,6 +76,23 @@ CLAIMED["C13"] = {
     "technique": "contracts on the real constructors/accessors; per-path VCs by symbolic-scalar execution; polynomial normal form; z3 on path conditions for the validation threshold",
 }
 
+CLAIMED["C11"] = {
+    "text": "Per enumerated layout, proof that every Bundle operation equals the element operations placed at offsets the spec computes as prefix sums "
+            "(values by normal form in one DAG; Jacobians block-diagonal with literal constant zeros elsewhere; element<i>() pointer offsets), incl. transform().",
+    "note": _REAL + "Layouts enumerated (2 quick, 17 thorough), not proved for all layouts. A-EIGEN-INV for element groups with numeric inverse fallback.",
+    "technique": "contracts on the real Bundle templates; per-path VCs by symbolic-scalar execution; DAG/normal-form identity against the same-run element results; frame check on off-diagonal cells",
+}
+
+CLAIMED["C17"] = {
+    "text": "CBMC code contracts (function contract + loop invariants + decreases on all 8 loops, callee replaced by its contract) on the C skeleton "
+            "extracted mechanically from decasteljau.h: maximal window count, every index in bounds, exact window size, curve size, no unsigned wrap, "
+            "termination, raises iff N<3|degree>N|k==0, last curve point = last control point; bounded (N,k) box.",
+    "note": "Trusted: CBMC, the extraction rules (ghost counters for containers), lemma blend(X,Y,1)=Y. Bounded domain N<=24,k<=3 (quick) / N<=64,k<=4 (thorough); "
+            "n_segments contract N<=256 / 2048. Element values not modelled.",
+    "technique": "CBMC code contracts with loop contracts (goto-instrument --dfcc --enforce-contract --replace-call-with-contract --apply-loop-contracts) on a rule-extracted C skeleton",
+    "engine": "E3",
+}
+
 NOT_APPLICABLE = {
     "C14": "quantifies over thread schedules; contract verification of one sequential call cannot express or decide data-race freedom (no thread model in any installed deductive back end for this C++ code) - see DESIGN.md section 5",
     "C19": "the oracle is the compiler's accept/reject verdict over a matrix of client programs, not a pre/postcondition of any function - see DESIGN.md section 5",
